@@ -11,8 +11,13 @@
    the whitelist patterns are consulted; [fixed_P35 = false] is the code without it (whitelist first).
    [walk_panics fixed_P36]: the walk reads an ignore file (or a global line) on which [Pattern::new]
    panics (finding P36, Glob/Pattern.v [pattern_new_panics]); never with [fixed_P36 = true].
-   [check_str] keeps its signature (it is also used by Gitignore/Model.v); the walkers use [check],
-   which is [check_str35] on the rendered path.
+   [fixed_P37 = true] models the repair of P37: the walkers ask about a directory with
+   IgnoreRules::check_dir, for which a directory-only pattern (`build/`, glob `**/build/**`) also matches
+   the path of the directory with a final slash; [fixed_P37 = false] is the code without it (every entry
+   is asked about with IgnoreRules::check).
+   [check_str] / [check_str35] keep their signatures (they are also used by Gitignore/Model.v: they are
+   IgnoreRules::check on a string); the walkers use [check], which is [check_strd] on the rendered path
+   and the kind of the entry.
    No proofs in this file. *)
 From Coq Require Import List NArith Bool.
 From XV Require Import Glob.Match Glob.Pattern.
@@ -61,6 +66,8 @@ Definition dir_patterns (p : path) (ign : option bytes) : list pattern :=
   | Some content => content_to_patterns (SFile (dir_string p)) content
   end.
 
+Definition is_dir (t : tree) : bool := match t with Dir _ _ => true | File => false end.
+
 Definition is_global (pat : pattern) : bool := match p_src pat with SGlobal => true | SFile _ => false end.
 
 Section Walk.
@@ -81,7 +88,27 @@ Definition global_hit (R : rules) (s : bytes) : bool :=
   existsb (fun pat => is_global pat && gm (p_glob pat) s) (r_ign R).
 Definition check_str35 (R : rules) (s : bytes) : verdict :=
   if fixed_P35 && global_hit R s then Ignore else check_str R s.
-Definition check (R : rules) (p : path) : verdict := check_str35 R (render p).
+
+(* the repair of P37.  A directory-only line (`build/`) is compiled by Pattern::new to a glob for what is
+   BELOW the directory (`**/build/**`), which does not match the path of the directory itself.
+   [fixed_P37 = true]: the walkers ask about a directory with IgnoreRules::check_dir, which shows the path
+   with a final slash to the directory-only patterns as well; [d] says that the path is a directory.
+   [fixed_P37 = false] (or d = false) is IgnoreRules::check: [check_strd R s false = check_str35 R s].
+   The locality test [applies] looks at the path without the slash in both. *)
+Variable fixed_P37 : bool.
+Definition glob_hit (s : bytes) (d : bool) (pat : pattern) : bool :=
+  gm (p_glob pat) s || (fixed_P37 && d && p_dironly pat && gm (p_glob pat) (s ++ [c_slash])).
+Definition pat_hits_d (s : bytes) (d : bool) (pat : pattern) : bool :=
+  (if fixed_P17 then applies pat s else true) && glob_hit s d pat.
+Definition global_hit_d (R : rules) (s : bytes) (d : bool) : bool :=
+  existsb (fun pat => is_global pat && glob_hit s d pat) (r_ign R).
+Definition check_strd (R : rules) (s : bytes) (d : bool) : verdict :=
+  if fixed_P35 && global_hit_d R s d then Ignore
+  else if existsb (pat_hits_d s d) (r_white R) then Whitelist
+  else if existsb (pat_hits_d s d) (r_ign R) then Ignore
+  else NoMatch.
+(* what both walkers ask about the entry at path p; d: the entry is a directory *)
+Definition check (R : rules) (p : path) (d : bool) : verdict := check_strd R (render p) d.
 
 (* ---- the reference walk -------------------------------------------------------------------------
    A path's verdict uses exactly the patterns of the ignore files of its proper ancestors plus the
@@ -95,7 +122,7 @@ Fixpoint spec_node (R : rules) (p : path) (t : tree) {struct t} : list path :=
        match l with
        | [] => []
        | (n, c) :: r =>
-         (if is_ignore (check R' (p ++ [n])) then [] else (p ++ [n]) :: spec_node R' (p ++ [n]) c) ++ go r
+         (if is_ignore (check R' (p ++ [n]) (is_dir c)) then [] else (p ++ [n]) :: spec_node R' (p ++ [n]) c) ++ go r
        end) ch
   end.
 
@@ -118,7 +145,7 @@ Fixpoint panics_node (fixed_P36 : bool) (R : rules) (p : path) (t : tree) {struc
        match l with
        | [] => false
        | (n, c) :: r =>
-         (if is_ignore (check R' (p ++ [n])) then false else panics_node fixed_P36 R' (p ++ [n]) c) || go r
+         (if is_ignore (check R' (p ++ [n]) (is_dir c)) then false else panics_node fixed_P36 R' (p ++ [n]) c) || go r
        end) ch
   end.
 
@@ -131,7 +158,7 @@ Fixpoint scan (R : rules) (p : path) (ch : list (name * tree)) : list path * lis
   | [] => ([], [])
   | (n, t) :: r =>
     let '(o, k) := scan R p r in
-    if is_ignore (check R (p ++ [n])) then (o, k)
+    if is_ignore (check R (p ++ [n]) (is_dir t)) then (o, k)
     else ((p ++ [n]) :: o, match t with Dir i c => (p ++ [n], i, c) :: k | File => k end)
   end.
 
@@ -206,7 +233,7 @@ Definition par_step (c : config) (i k : nat) : option config :=
     | M1 (p, ign, ch) => upd (M2 (p, ign, ch)) (c_queue c) (merge_ign (c_rules c) (dir_patterns p ign)) (c_out c)
     | M2 (p, ign, ch) => upd (Work (children_of p ch) []) (c_queue c) (merge_white (c_rules c) (dir_patterns p ign)) (c_out c)
     | Work ((q, t) :: rest) kept =>
-      if is_ignore (check (c_rules c) q) then upd (Work rest kept) (c_queue c) (c_rules c) (c_out c)
+      if is_ignore (check (c_rules c) q (is_dir t)) then upd (Work rest kept) (c_queue c) (c_rules c) (c_out c)
       else upd (Work rest (kept ++ match t with Dir i ch => [(q, i, ch)] | File => [] end))
                (c_queue c) (c_rules c) (c_out c ++ [q])
     | Work [] (d :: kept) => upd (Work [] kept) (c_queue c ++ [d]) (c_rules c) (c_out c)
